@@ -736,7 +736,9 @@ func init() {
 			`histogram_quantile(0.5, h_bucket)`, `histogram_quantile(0.9, h_bucket{l="0"})`, `histogram_quantile(scalar(b{l="0"}) / 5, h_bucket)`,
 			`histogram_quantile(-1, h_bucket)`, `histogram_quantile(2, h_bucket)`, `histogram_quantile(NaN, h_bucket)`, `histogram_quantile(0.5, rate(h_bucket[1m]))`,
 			`histogram_quantile(0.5, sum by (le) (h_bucket))`, `histogram_quantile(0.5, a)`,
-			`clamp(a, scalar(b{l="0"}), 3)`, `clamp_min(a, scalar(b{l="0"}))`, `clamp_max(a, time() / 100)`, `clamp(a, -1, time() / 1000)`} {
+			`clamp(a, scalar(b{l="0"}), 3)`, `clamp_min(a, scalar(b{l="0"}))`, `clamp_max(a, time() / 100)`, `clamp(a, -1, time() / 1000)`,
+			// a scalar argument computed by an aggregation that runs ahead behind its exchange buffer
+			`clamp_max(a, scalar(max(b)))`, `clamp_min(a, scalar(sum(b) / 2))`, `clamp(a, scalar(min(b)), scalar(max(a)))`} {
 			qs.Add(q, 1)
 		}
 		// arguments paired step by step with a vector that is absent for whole batches
@@ -755,6 +757,14 @@ func init() {
 			for _, q := range qs.List {
 				for _, w := range ws {
 					emit(&core.Case{Q: q, Data: data, W: w, O: o, Note: "c06"})
+					// per-step arguments once more with the deterministic pool that hands a
+					// recycled buffer out again at once: a buffer recycled twice, or while
+					// still in use, then shows in the values
+					if n := w.NSteps(); (n == 35 || n == 101) && (strings.Contains(q, "scalar(") || strings.Contains(q, "time()")) {
+						ol := o
+						ol.Pool = "lifo"
+						emit(&core.Case{Q: q, Data: data, W: w, O: ol, Note: "c06 lifo pool"})
+					}
 				}
 			}
 		})
